@@ -147,7 +147,8 @@ impl Method for PhoneticMethod {
             let modified = modified_time(&file);
             // Update the auto correct entries if only the file was modified in the meantime.
             if modified > self.modified {
-                self.suggestion.user_autocorrect = parse_autocorrect(&read(&mut file));
+                self.suggestion
+                    .set_user_autocorrect(parse_autocorrect(&read(&mut file)));
                 self.modified = modified;
             }
         }
